@@ -499,6 +499,14 @@ Definition parent_ok (k : list str) (img : image) : bool :=
   | pk => match lookup pk img with Some (NDir _) => true | _ => false end
   end.
 
+(* the parent of k is a symlink in the image: the real filesystem would follow it; this lexical
+   model does not (such cases are reported as unmodelled and skipped by the comparison) *)
+Definition parent_is_link (k : list str) (img : image) : bool :=
+  match removelast k with
+  | [] => false
+  | pk => match lookup pk img with Some (NLink _) => true | _ => false end
+  end.
+
 Definition dmode (um : N) : N := N.land 511 (N.lxor 511 (N.land um 511)).      (* 0o777 & ~umask *)
 Definition fmode (um : N) : N := N.land 438 (N.lxor 511 (N.land um 511)).      (* 0o666 & ~umask *)
 
@@ -510,13 +518,14 @@ Fixpoint mkdirs_from (um : N) (img : image) (pre rest : list str) : res image :=
       match lookup k img with
       | None => mkdirs_from um (put k (NDir (dmode um)) img) k r
       | Some (NDir _) => mkdirs_from um img k r
+      | Some (NLink _) => inr (E "unmodelled-symlink-component")   (* the real filesystem follows it *)
       | Some _ => inr (E "oserr")
       end
   end.
 
 Record st := { s_img : image; s_ino : N }.
 
-Definition exec1 (um : N) (s : st) (a : action) : res st :=
+Definition exec1_raw (um : N) (s : st) (a : action) : res st :=
   let img := s_img s in
   match a with
   | AMkdirs p mode =>
@@ -583,6 +592,17 @@ Definition exec1 (um : N) (s : st) (a : action) : res st :=
            | Some (NFile m _ ino) => inl {| s_img := put k (NFile m 0%N ino) img; s_ino := s_ino s |}
            | _ => inl {| s_img := put k (NFile (fmode um) 0%N (s_ino s)) img; s_ino := (s_ino s + 1)%N |}
            end
+  end.
+
+Definition action_path (a : action) : option str :=
+  match a with
+  | AMkdirs _ _ | AInstallDir _ => None
+  | AInstall _ p _ | ASymlinkNew _ p | ASymlink _ p | AHardlink _ p | ATouch p => Some p
+  end.
+Definition exec1 (um : N) (s : st) (a : action) : res st :=
+  match action_path a with
+  | Some p => if parent_is_link (key p) (s_img s) then inr (E "unmodelled-symlink-component") else exec1_raw um s a
+  | None => exec1_raw um s a
   end.
 
 Fixpoint exec (um : N) (s : st) (l : list action) : res st :=
@@ -728,6 +748,9 @@ Definition enc_image (img : image) : val := VL (map (enc_entry img) img).
 
 Definition max_ino (img : image) : N :=
   fold_left (fun acc kn => match snd kn with NFile _ _ i => N.max acc (i + 1) | _ => acc end) img 0%N.
+
+Definition is_unmodelled (v : val) : bool :=
+  match v with VErr k => str_eqb k (E "unmodelled-symlink-component") | _ => false end.
 
 Definition run_helper (i : inv) : val :=
   match plan i with
